@@ -237,6 +237,9 @@ struct Case {
     unit: usize,
     /// run against a server with nobody on it (the retry rules must not depend on what an earlier reply said)
     empty_server: bool,
+    /// the sections are gathered with Try: a section whose attempts are exhausted is left out instead of failing the query
+    /// (what the result then is, is C11's subject; the attempts are counted all the same)
+    try_sections: bool,
 }
 
 fn build(tier: Tier) -> Vec<Case> {
@@ -259,6 +262,7 @@ fn build(tier: Tier) -> Vec<Case> {
                     retries,
                     unit,
                     empty_server: false,
+                    try_sections: false,
                 });
                 if matches!(t.family, Family::Unreal2 | Family::Valve(_)) && retries <= 2 {
                     v.push(Case {
@@ -267,6 +271,7 @@ fn build(tier: Tier) -> Vec<Case> {
                         retries,
                         unit,
                         empty_server: true,
+                        try_sections: false,
                     });
                 }
             }
@@ -277,11 +282,11 @@ fn build(tier: Tier) -> Vec<Case> {
         if !t.honours_timeout || !matches!(t.family, Family::Unreal2 | Family::Valve(_)) || units(t.family, &t).len() < 2 {
             continue;
         }
-        if let Some((p, r)) = t.toggles {
-            if p != GatherToggle::Enforce || r != GatherToggle::Enforce {
-                continue;
-            }
-        }
+        let try_sections = match t.toggles {
+            Some((GatherToggle::Enforce, GatherToggle::Enforce)) | None => false,
+            Some((GatherToggle::Try, GatherToggle::Try)) => true,
+            _ => continue,
+        };
         for retries in 0 ..= if tier.is_thorough() { 3usize } else { 2 } {
             v.push(Case {
                 label: format!("{} faults in every request unit retries={retries}", t.name),
@@ -289,6 +294,7 @@ fn build(tier: Tier) -> Vec<Case> {
                 retries,
                 unit: ALL_UNITS,
                 empty_server: false,
+                try_sections,
             });
         }
     }
@@ -388,13 +394,18 @@ impl Prop for C10 {
                     let mut bad: Option<(String, String)> = None;
                     let mut exhausted = false;
                     let mut all: Vec<Vec<Attempt>> = Vec::new();
-                    for u in units(t.family, t) {
+                    let mut section_left_out = false;
+                    for u in [0usize, 1, 2] {
                         let at = attempts(fam, u, &x.log, &[]);
                         if bad.is_none() {
                             bad = judge_attempts(&at, r).map(|(k, d)| (format!("{k}:unit{u}-with-faults-in-other-units"), d));
                         }
                         if at.last().is_some_and(|a| a.timeout_class()) {
-                            exhausted = true;
+                            if case.try_sections && u > 0 {
+                                section_left_out = true;
+                            } else {
+                                exhausted = true;
+                            }
                         }
                         all.push(at);
                     }
@@ -403,6 +414,10 @@ impl Prop for C10 {
                             match x.outcome.err_kind() {
                                 Some(GDErrorKind::PacketReceive) | Some(GDErrorKind::PacketSend) => {}
                                 _ => bad = Some(("exhausted-retries-not-a-timeout-error".into(), format!("outcome {}", x.outcome.class()))),
+                            }
+                        } else if section_left_out {
+                            if x.outcome.ok().is_none() {
+                                bad = Some(("try-section-failure-fails-the-query".into(), format!("outcome {}", x.outcome.class())));
                             }
                         } else if x.outcome.ok() != Some(&baseline) {
                             bad = Some(("result-differs-from-fault-free".into(), format!("outcome {}", x.outcome.class())));
